@@ -51,7 +51,7 @@ public:
 
   void insert(const hash_t &, const fitness_t &);
 
-  const fitness_t &find(const hash_t &) const;
+  fitness_t find(const hash_t &) const;
 
   bool is_valid() const;
 
